@@ -52,6 +52,10 @@ def main(argv=None):
             print("replay: property holds on this case" if not probs else "replay: only known findings")
         return rc
 
+    import quimb
+
+    if os.environ.get("QUIMB_SRC"):
+        print("NOTE: checking quimb from %s" % os.path.dirname(quimb.__file__))
     ctx = core.Ctx(pid, tier=a.tier, seed=seed, workers=a.workers, budget_s=a.budget)
     ctx.module = mod
     ctx.opts = dict(o.split("=", 1) for o in a.opt)
